@@ -160,6 +160,56 @@ def replay_decode(T, K, nonid=False):
     return run
 
 
+def replay_bruteforce(T, K, with_mask=True, invert=False):
+    """the multi-candidate search must return the best of its candidates: compared with T*K single-candidate models (same template j, same mask, the single rotation k);
+    invert: an inverted-contrast particle (every score negative)"""
+
+    def run(cex):
+        from acryo.alignment import ZNCCAlignment
+        from scipy.spatial.transform import Rotation
+        from scipy import ndimage as ndi
+        from acryo._utils import compose_matrices
+
+        rng = np.random.default_rng(11)
+        size = 14
+        zz, yy, xx = np.indices((size,) * 3) - (size - 1) / 2
+        temps = []
+        for j in range(T):
+            t = np.zeros((size,) * 3, dtype=np.float32)
+            for _ in range(4):
+                c = rng.uniform(-3.0, 3.0, size=3)
+                t += np.exp(-((zz - c[0]) ** 2 + (yy - c[1]) ** 2 + (xx - c[2]) ** 2) / 3.0).astype(np.float32)
+            temps.append(t)
+        mask = None
+        if with_mask:
+            mask = np.exp(-((zz - 1.5) ** 2 / 14.0 + (yy + 1.0) ** 2 / 20.0 + xx ** 2 / 9.0)).astype(np.float32)  # soft, off-centre, anisotropic: rotating it matters
+        rots = Rotation.from_rotvec([[0, 0, 0], [0.6, 0, 0], [0, -0.7, 0.3]][:K]) if K > 1 else None
+        multi = ZNCCAlignment(temps if T > 1 else temps[0], mask, rotations=rots)
+        wrong = []
+        for j in range(T):
+            for k in range(K):
+                rot = Rotation.from_rotvec([[0, 0, 0], [0.6, 0, 0], [0, -0.7, 0.3]][k])
+                mtx = compose_matrices(np.array(temps[j].shape) / 2 - 0.5, [rot.inv()])[0]
+                sub = ndi.affine_transform(temps[j], mtx, order=3, mode="constant", cval=0.0) + rng.normal(size=(size,) * 3).astype(np.float32) * 0.02
+                if invert:
+                    sub = -sub
+                res = multi.align(sub, (1, 1, 1))
+                best = None
+                for jj in range(T):
+                    for kk in range(K):
+                        rk = Rotation.from_rotvec([[[0, 0, 0], [0.6, 0, 0], [0, -0.7, 0.3]][kk]])
+                        single = ZNCCAlignment(temps[jj], mask, rotations=rk if (K > 1 or kk > 0) else None)
+                        r1 = single.align(sub, (1, 1, 1))
+                        if best is None or float(r1.score) > best[0]:
+                            best = (float(r1.score), jj, kk)
+                lab = int(res.label) % max(T, 1) if K > 1 else int(res.label)
+                if abs(float(res.score) - best[0]) > 2e-3 or (lab != best[1] and T > 1):
+                    wrong.append({"particle": [j, k], "multi": [round(float(res.score), 4), int(res.label)], "best_single": [round(best[0], 4), best[1], best[2]]})
+        return len(wrong) > 0, {"T": T, "K": K, "mask": with_mask, "inverted": invert, "n_wrong": len(wrong), "examples": wrong[:3]}
+
+    return run
+
+
 # ---------------------------------------------------------------------------------------
 # (a) ordering lemma
 
@@ -758,7 +808,7 @@ def run(tier, procs=None, only=None):
 
 
 # every real-library oracle of this property (each returns (reproduced, detail)); used to confirm structural facts that carry no replay of their own
-ALL_REPLAYS = [lambda c: replay_decode(2, 3)(c), lambda c: replay_decode(2, 1, True)(c), lambda c: replay_fit(2, 2)(c), lambda c: replay_labels(2, 2)(c), lambda c: replay_labels(2, 2, True)(c), lambda c: replay_normalize('single')(c)]
+ALL_REPLAYS = [lambda c: replay_decode(2, 3)(c), lambda c: replay_decode(2, 1, True)(c), lambda c: replay_fit(2, 2)(c), lambda c: replay_labels(2, 2)(c), lambda c: replay_labels(2, 2, True)(c), lambda c: replay_normalize('single')(c), lambda c: replay_bruteforce(2, 2)(c), lambda c: replay_bruteforce(2, 1)(c), lambda c: replay_bruteforce(2, 2, False, True)(c), lambda c: replay_bruteforce(1, 2, False, True)(c)]
 
 
 def replay(data):
